@@ -46,6 +46,9 @@ def run(repo, rep):
              'into Sta1/Sta13 tells the user or is initiated by the user; entering Sta1 releases the transport', 40)
     rep.rule('C13.K4', 'stop protocol: run sets the stopped flag on all exits and re-reads the stop request every iteration; '
              'Association.kill is reached on every exit of handle() and of request_association(); its wait is bounded', 4)
+    rep.rule('C13.K7', 'the end of the stream is always noticed: on every path on which recv() returned, its result is tested, and '
+             'an empty result queues Evt17 and releases the transport (a test on anything else -- the reassembly buffer, a '
+             'length -- misses a close that arrives inside a PDU)', 1)
     rep.rule('C13.K5', 'every exit of run leaves the transport closed (closed explicitly, or proven absent)', 1)
 
     decode_set = pdu_decode_raise_set(repo)
@@ -59,6 +62,43 @@ def run(repo, rep):
     probs = blocking_problems(finals, blog)
     rep.check(not probs, 'C13.K1', 'dulprovider:DULServiceProvider:blocking-calls', pm.cls.loc(),
               'all socket reads / polls / queue gets on %d producer paths are bounded by a timeout' % len(finals), '; '.join(probs))
+
+    # K7
+    from ..provider_model import appended_event, cond_says_recv_empty
+    p7 = []
+    n_recv = 0
+
+    def flip(c_):
+        return ('-' + c_[1:]) if c_.startswith('+') else ('+' + c_[1:]) if c_.startswith('-') else c_
+    for s_, how in finals:
+        recvs = [i for i, e_ in enumerate(s_.trail) if e_.kind == 'recv']
+        if not recvs or how.startswith('raise'):
+            continue
+        i0 = recvs[-1]
+        after = s_.trail[i0 + 1:]
+        # the conditions that were added after the read
+        base = set(s_.trail[i0].conds)
+        later = [c_ for c_ in s_.conds if c_ not in base]
+        if any(c_.startswith('exc:') for c_ in later):
+            continue       # the read failed: K-rules on Evt17 producers cover it (C05.G3)
+        n_recv += 1
+        empty = any(cond_says_recv_empty(c_) for c_ in later)
+        nonempty = any(cond_says_recv_empty(flip(c_)) for c_ in later)
+        if empty and nonempty:
+            continue       # contradictory conditions (non-empty and of length 0): not a path the code can take
+        if not empty and not nonempty:
+            p7.append('after recv() at line %d a path returns without testing what was read for end of stream [%s]'
+                      % (s_.trail[i0].line, ' '.join(later) or 'no test'))
+        elif empty:
+            evs = [appended_event(e_, model, repo, pm.mod) for e_ in after if e_.kind == 'append']
+            if 'EVT_17' not in evs:
+                p7.append('recv() at line %d returned nothing (peer closed) but Evt17 is not queued' % s_.trail[i0].line)
+            if not any(e_.kind == 'close' for e_ in after):
+                p7.append('recv() at line %d returned nothing (peer closed) but the socket is not closed' % s_.trail[i0].line)
+    if n_recv == 0:
+        raise AnalysisError('no producer path reads from the socket')
+    rep.check(not p7, 'C13.K7', 'dulprovider:DULServiceProvider._check_network:end-of-stream', pm.method('_check_network').loc(),
+              'the bytes returned by recv() are tested on %d path(s); empty -> Evt17 + close' % n_recv, '; '.join(sorted(set(p7))))
 
     # K2
     for (e, s), aid in sorted(ps3_8.TABLE.items()):
